@@ -530,6 +530,104 @@ def check_filters(case, mods, fails):
     return True
 
 
+def check_filters_paired(case, fails):
+    """C11 / C05: the pair decision combines the per-read criteria as documented (any / both / first; a one-sided length
+    bound looks at that side only; 'both' is forced for the untrimmed filter when adapters are given for one side only);
+    criteria are recomputed on the fully modified reads of a run without filters."""
+    d, rng = case.d, case.rng
+    from cutadapt.qualtrim import expected_errors
+    sides = rng.choice(["both", "r1only", "r2only"])
+    mods = []
+    if sides in ("both", "r1only"):
+        mods += ["-a", f"x={A1}"]
+    if sides in ("both", "r2only"):
+        mods += ["-A", f"u={A2}"]
+    if rng.random() < 0.3:
+        mods += ["-q", "15"]
+    b1, b2 = os.path.join(d, "pn1.fq"), os.path.join(d, "pn2.fq")
+    code, _, _ = run(mods + ["--rename", "{header} ||{adapter_name}", "-o", b1, "-p", b2] + case.inputs())
+    if code != 0:
+        return False
+    mod1, mod2 = read_records(b1), read_records(b2)
+    mode = rng.choice([None, "any", "both", "first"])
+    m = rng.choice([None, "8", "8:12", "8:", ":12"])
+    M = rng.choice([None, "25", "25:20", "25:", ":20"])
+    maxn = rng.choice([None, "0", "1"])
+    maxee = rng.choice([None, "0.5", "2"])
+    maxaer = rng.choice([None, "0.05", "0.2"])
+    casava = rng.random() < 0.3
+    third = rng.choice([None, "--discard-trimmed", "--discard-untrimmed"])
+    f = []
+    for opt, v in (("-m", m), ("-M", M), ("--max-n", maxn), ("--max-ee", maxee), ("--max-aer", maxaer)):
+        if v is not None:
+            f += [opt, v]
+    if casava:
+        f += ["--discard-casava"]
+    if third:
+        f += [third]
+    if mode:
+        f += ["--pair-filter", mode]
+    o1, o2 = os.path.join(d, "po1.fq"), os.path.join(d, "po2.fq")
+    args = mods + f + ["-o", o1, "-p", o2] + case.inputs()
+    code, _, err = run(args)
+    if code != 0:
+        return False
+    kept = {ident(r[0]) for r in read_records(o1)}
+    eff = mode or "any"
+
+    def combine(c1, c2, how=None):
+        how = how or eff
+        if c1 is None:          # one-sided bound: only the other side is looked at
+            return c2
+        if c2 is None:
+            return c1
+        return (c1 or c2) if how == "any" else (c1 and c2) if how == "both" else c1
+
+    def bounds(v):
+        if v is None:
+            return None
+        if ":" not in v:
+            return int(v), int(v)
+        a, b = v.split(":")
+        return (int(a) if a else None), (int(b) if b else None)
+
+    for (n1, s1, q1), (n2, s2, q2) in zip(mod1, mod2):
+        rid = ident(n1)
+        t1, t2 = not n1.endswith("||no_adapter"), not n2.endswith("||no_adapter")
+        crit = []
+        bm, bM = bounds(m), bounds(M)
+        if bm:
+            crit.append(("too short", None if bm[0] is None else len(s1) < bm[0], None if bm[1] is None else len(s2) < bm[1], None))
+        if bM:
+            crit.append(("too long", None if bM[0] is None else len(s1) > bM[0], None if bM[1] is None else len(s2) > bM[1], None))
+        if maxn is not None:
+            k = float(maxn)
+            crit.append(("too many N", sum(ch in "Nn" for ch in s1) > k, sum(ch in "Nn" for ch in s2) > k, None))
+        if maxee is not None:
+            crit.append(("max-ee", expected_errors(q1) > float(maxee), expected_errors(q2) > float(maxee), None))
+        if maxaer is not None:
+            crit.append(("max-aer", len(s1) > 0 and expected_errors(q1) / len(s1) > float(maxaer),
+                         len(s2) > 0 and expected_errors(q2) / len(s2) > float(maxaer), None))
+        if casava:
+            h1, h2 = n1.rsplit(" ||", 1)[0], n2.rsplit(" ||", 1)[0]
+            crit.append(("casava", h1.partition(" ")[2][1:4] == ":Y:", h2.partition(" ")[2][1:4] == ":Y:", None))
+        if third == "--discard-trimmed":
+            crit.append(("discard-trimmed", t1, t2, None))
+        if third == "--discard-untrimmed":
+            crit.append(("discard-untrimmed", not t1, not t2, "both" if sides != "both" else None))
+        expected_kept, why = True, ""
+        for lab, c1, c2, how in crit:
+            if combine(c1, c2, how):
+                expected_kept, why = False, lab
+                break
+        if (rid in kept) != expected_kept:
+            fails.append(("C11", args, f"pair {rid} (lengths {len(s1)}/{len(s2)}, trimmed {t1}/{t2}, pair-filter {eff}) expected "
+                                       f"{'in the output' if expected_kept else 'filtered by ' + why}, but it is {'kept' if rid in kept else 'filtered'}"))
+            fails.append(("C05", args, fails[-1][2]))
+            break
+    return True
+
+
 def main():
     req = json.load(sys.stdin)
     rng = random.Random(req.get("seed", 0))
@@ -545,7 +643,9 @@ def main():
             before = len(fails)
             did = False
             kind = rng.choice(sorted(props))
-            if kind in ("C04", "C05"):
+            if kind == "C05" and paired and rng.random() < 0.4:
+                did = check_filters_paired(case, fails)
+            elif kind in ("C04", "C05"):
                 did = check_counts(case, mods + filt, fails)
             elif kind == "C15":
                 did = check_demux(case, [x for x in mods if x not in ("-a", "-g", "-A", f"x={A1}", f"y={A2}", f"u={A2}")] if False else [], fails)
@@ -558,7 +658,7 @@ def main():
             elif kind == "C10":
                 did = check_order(case, fails)
             elif kind == "C11":
-                did = check_filters(case, [x for x in mods if x != "--revcomp"], fails)
+                did = check_filters_paired(case, fails) if paired else check_filters(case, [x for x in mods if x != "--revcomp"], fails)
             if did:
                 cases += 1
                 distinct.add((kind, paired, " ".join(str(x) for x in (mods + filt) if not str(x).startswith(d))))
